@@ -155,7 +155,7 @@ var overrides = map[string]func() *node{
 	"preconditions.#.condition":  func() *node { return S("`echo x`") },
 	"preconditions.#.expected":   func() *node { return S("x") },
 	// only the exit handler is maximal; the others are minimal steps (keeps the base document small)
-	"handlerOn.success": func() *node { return M("command", "true") },
+	"handlerOn.success": func() *node { return M("call", M("function", "f2", "args", M("a", "y", "b", 2))) },
 	"handlerOn.failure": func() *node { return M("command", L(S("echo"), S("x"))) },
 	"handlerOn.cancel":  func() *node { return M("executor", "mail") },
 	"steps.#.name":      func() *node { return S("s_all") },
@@ -202,7 +202,8 @@ func extraSteps() []*node {
 		M("name", "s_cmdlist", "command", L(S("echo"), I(1), S("x"))),
 		M("name", "s_exec", "executor", M("type", "http", "config", M("timeout", 10, "headers", M("A", "b"), "silent", true))),
 		M("name", "s_execstr", "executor", "mail"),
-		M("name", "s_call", "call", M("function", "f1", "args", M("a", 1, "b", "x"))),
+		M("name", "s_call", "call", M("function", "f2", "args", M("a", 1, "b", "x"))),
+		M("name", "s_call1", "call", M("function", "f1", "args", M("a", "x", "b", 2))),
 		M("name", "s_run", "run", "sub", "params", "x=1"),
 		M("name", "s_script", "command", "sh", "script", "echo x"),
 	}
@@ -252,6 +253,17 @@ func baseDoc(schema *dag.VerifNode) (*node, schemaMap) {
 	root := buildFromSchema(schema, "", sm)
 	if st := root.get("steps"); st != nil && st.k == nList {
 		st.items = append(st.items, extraSteps()...)
+	}
+	// two functions (the second a copy of the reflected first one, renamed); the
+	// maximal step, the exit handler and s_call1 call f1, s_call and the success
+	// handler call f2, so that a defect that needs "an entry in front of the
+	// called function" has a witness among the single mutations.
+	if fn := root.get("functions"); fn != nil && fn.k == nList && len(fn.items) == 1 && fn.items[0].k == nMap {
+		f2 := fn.items[0].clone()
+		if nm := f2.get("name"); nm != nil {
+			nm.s = "f2"
+		}
+		fn.items = append(fn.items, f2)
 	}
 	return root, sm
 }
@@ -387,6 +399,48 @@ var plainKinds = []string{"delete", "duplicate", "null", "int", "negint", "float
 var leafKinds = []string{"string", "list-of-strings", "list-of-maps", "map-unknown-key", "map-nonstring-key",
 	"nested-list-of-maps", "map-list-map", "deep-list", "deep-map"}
 
+// kinds that apply to list nodes only: an element is inserted next to the
+// existing (valid) elements. insert-*-between is instantiated for every gap
+// (the gap index travels in the leaf field). *-empty-map only for lists that
+// hold maps.
+var listKinds = []string{"prepend-null", "append-null", "insert-null-between",
+	"prepend-empty-map", "append-empty-map", "insert-empty-map-between"}
+
+func nodeAt(root *node, path []int) *node {
+	n := root
+	for _, i := range path {
+		if n.k == nMap {
+			n = n.vals[i]
+		} else {
+			n = n.items[i]
+		}
+	}
+	return n
+}
+
+func listMutations(pt int, n *node) []mutation {
+	if n.k != nList {
+		return nil
+	}
+	out := []mutation{{pt: pt, kind: "prepend-null"}, {pt: pt, kind: "append-null"}}
+	for g := 1; g < len(n.items); g++ {
+		out = append(out, mutation{pt: pt, kind: "insert-null-between", leaf: strconv.Itoa(g)})
+	}
+	hasMap := false
+	for _, it := range n.items {
+		if it.k == nMap {
+			hasMap = true
+		}
+	}
+	if hasMap {
+		out = append(out, mutation{pt: pt, kind: "prepend-empty-map"}, mutation{pt: pt, kind: "append-empty-map"})
+		for g := 1; g < len(n.items); g++ {
+			out = append(out, mutation{pt: pt, kind: "insert-empty-map-between", leaf: strconv.Itoa(g)})
+		}
+	}
+	return out
+}
+
 type mutation struct {
 	pt   int    // index into the point list
 	kind string // plain kind or leaf kind
@@ -406,7 +460,31 @@ const deepN = 10
 func replacement(kind, leafID string, orig *node) *node {
 	lf, _ := leafByID(leafID)
 	v := func() *node { return S(lf.s) }
+	ins := func(at int, x *node) *node {
+		c := orig.clone()
+		if c.k != nList {
+			return c
+		}
+		if at < 0 || at > len(c.items) {
+			at = len(c.items)
+		}
+		c.items = append(c.items[:at:at], append([]*node{x}, c.items[at:]...)...)
+		return c
+	}
+	gap, _ := strconv.Atoi(leafID)
 	switch kind {
+	case "prepend-null":
+		return ins(0, Null())
+	case "append-null":
+		return ins(-1, Null())
+	case "insert-null-between":
+		return ins(gap, Null())
+	case "prepend-empty-map":
+		return ins(0, &node{k: nMap})
+	case "append-empty-map":
+		return ins(-1, &node{k: nMap})
+	case "insert-empty-map-between":
+		return ins(gap, &node{k: nMap})
 	case "null":
 		return Null()
 	case "int":
@@ -545,8 +623,8 @@ func fullName(pts []point, muts ...mutation) string {
 }
 
 // allMutations of one point, with the given leaf pool.
-func mutationsOf(pt int, pool []leaf) []mutation {
-	var out []mutation
+func mutationsOf(base *node, pts []point, pt int, pool []leaf) []mutation {
+	out := listMutations(pt, nodeAt(base, pts[pt].path))
 	for _, k := range plainKinds {
 		out = append(out, mutation{pt: pt, kind: k})
 	}
